@@ -157,6 +157,12 @@ class SqlSched:
 
             def execute(self, sql, parameters=(), /):  # noqa: ANN001
                 sched._yield("exec", sql)
+                fault = getattr(sched, "lock_fault", None)
+                if fault is not None:
+                    w = getattr(_tls, "worker", None)
+                    if w is not None and fault(w.idx, sql):
+                        # the lock could not be had within pynenc's own retries (another process holds the database for long)
+                        raise sqlite3.OperationalError("database is locked")
                 while True:
                     try:
                         # the real retry loop; its back-off sleep is the scheduler's lock wait
